@@ -83,7 +83,20 @@ fn main() {
         _ => machinery("tier must be quick or thorough"),
     };
     let ctx: &'static Ctx = Box::leak(Box::new(Ctx::new(prop, tier, false)));
-    let (level, coverage, assumptions) = run(ctx);
-    let code = ctx.finish(level, coverage, assumptions);
+    let r = std::panic::catch_unwind(|| run(ctx));
+    let code = match r {
+        Ok((level, coverage, assumptions)) => ctx.finish(level, coverage, assumptions),
+        Err(_) => {
+            let p = ESCAPED_PANIC.lock().ok().and_then(|g| g.clone()).unwrap_or_else(|| "<unknown panic>".into());
+            if p.contains("/repo/") {
+                // a panic raised by the code under test outside a guarded call: still a verdict
+                ctx.fail(&format!("panic_outside_guard:{}", panic_class(&p)), || p.clone(), || serde_json::json!({"escaped_panic": p}));
+                ctx.finish("other", serde_json::json!({"explanation": "aborted: the code under test panicked outside a guarded call", "evaluations": 1, "distinct_nontrivial": 0}), vec![])
+            } else {
+                eprintln!("MACHINERY: harness panic: {p}");
+                3
+            }
+        }
+    };
     std::process::exit(code);
 }
